@@ -215,6 +215,10 @@ class EvalMixin(object):
 
     def binop(self, op, a, b, n=None):
         line = n.line if n is not None else 0
+        if type(a).__name__ == 'SymNode' or type(b).__name__ == 'SymNode':
+            # sympy's operator overloading: an expression node with the meaning of the written operation (spec/sympy_stub.py)
+            from spec import sympy_stub
+            return sympy_stub.arith(self, op, a, b, line)
         if isinstance(a, Arr) or isinstance(b, Arr):
             return self.arr_binop(op, a, b, line)
         if isinstance(a, (list, tuple, str)) or isinstance(b, (list, tuple, str)):
